@@ -147,6 +147,12 @@ func TestCheck(t *testing.T) {
 		}
 	}
 	jobs = append(jobs, job{"trio"})
+	// every test as the FIRST test on a fresh server with the default starting election id,
+	// and ordered pairs of tests on fresh servers (quick: a seeded sample; thorough: all of them)
+	nShort := run.Pick(8, 32)
+	for k := 0; k < nShort; k++ {
+		jobs = append(jobs, job{fmt.Sprintf("short:%d:%d", k, nShort)})
+	}
 	for f := range faults {
 		if faults[f].slow && !run.Thorough() {
 			continue
@@ -202,6 +208,11 @@ func TestChild(t *testing.T) {
 		conformant(col, wr, sp, configs[c], p)
 	case "trio":
 		trio(col, wr, sp)
+	case "short":
+		var k, n int
+		fmt.Sscanf(parts[1], "%d", &k)
+		fmt.Sscanf(parts[2], "%d", &n)
+		shortOrders(col, wr, sp, k, n)
 	case "fault":
 		faulty(col, wr, sp, strings.Join(parts[1:], ":"))
 	}
@@ -290,6 +301,76 @@ func conformant(col *child.Collector, wr *child.Writer, sp *child.Spec, cfg conf
 	col.Seen("configurations", cfg.name)
 	if perm == 0 {
 		col.Sample(map[string]any{"case": caseID, "first_tests_of_the_order": names[:8]})
+	}
+}
+
+// shortOrders: sequences of one or two tests, each sequence on fresh servers with the
+// package's starting election id - what a user who selects a subset of the suite gets.
+func shortOrders(col *child.Collector, wr *child.Writer, sp *child.Spec, shard, nShards int) {
+	n := len(compliance.TestSuite)
+	var seqs [][]int
+	for i := 0; i < n; i++ {
+		seqs = append(seqs, []int{i})
+	}
+	if sp.Tier == "thorough" {
+		for i := 0; i < n; i++ {
+			for j := 0; j < n; j++ {
+				if i != j {
+					seqs = append(seqs, []int{i, j})
+				}
+			}
+		}
+	} else {
+		r := rand.New(rand.NewSource(sp.Seed*15485863 + 17))
+		for k := 0; k < 320; k++ {
+			i, j := r.Intn(n), r.Intn(n)
+			if i != j {
+				seqs = append(seqs, []int{i, j})
+			}
+		}
+	}
+	cfgs := []config{configs[0]}
+	for si, seq := range seqs {
+		if si%nShards != shard {
+			continue
+		}
+		cfg := cfgs[0]
+		setConfig(cfg)
+		main, err := newServer(cfg, false)
+		if err != nil {
+			col.Fatal(err.Error())
+			return
+		}
+		strict, _ := newServer(cfg, true)
+		em, es := &env{gs: drv.Serve(main)}, &env{gs: drv.Serve(strict)}
+		var names []string
+		for _, idx := range seq {
+			tt := compliance.TestSuite[idx]
+			e := em
+			if tt.In.RequiresDisallowedForwardReferences {
+				e = es
+			}
+			wr.InFlight(fmt.Sprintf("short %v / %s", seq, tt.In.ShortName))
+			v := runTest(e, tt)
+			names = append(names, tt.In.ShortName)
+			if v.failed {
+				pos := "as the first test on a fresh server"
+				if len(names) > 1 {
+					pos = fmt.Sprintf("as the second test on a fresh server, after %q", names[0])
+				}
+				col.Violation(fmt.Sprintf("short:%v", seq), "conformant-server-fails:"+sanit(tt.In.ShortName), fmt.Sprintf("%q failed on the conformant reference server %s (starting election id %d): %s", tt.In.ShortName, pos, cfg.elecBase, strings.Join(v.msgs, " | ")), map[string]any{"order": names})
+			}
+			col.Count("test_executions", 1)
+		}
+		em.gs.Stop()
+		es.gs.Stop()
+		col.Eval(1)
+		col.Distinct("short" + fmt.Sprint(seq))
+		if len(seq) == 1 {
+			col.Count("tests_run_first_on_a_fresh_server", 1)
+		} else {
+			col.Count("ordered_pairs_on_fresh_servers", 1)
+		}
 	}
 }
 
